@@ -462,6 +462,34 @@ func (c *Ctx) ContributionRules(prop string) {
 			}
 		}
 	}
+	// ---- O4, second half: a failure reported by the process service is a failure of the message. Every handler answers
+	// success (nil error) only past the nil-error edge of each process-service call it made: the initiator ends a generation
+	// with an error exactly when some prepare / execute / commit message comes back as an error, and it is the refusal of a
+	// second Prepare ("in progress") that keeps a new generation off the state a failed one left behind.
+	nprop := 0
+	for _, H := range c.handlersIn(rule4, "/handlers/receiver") {
+		for _, ci := range Calls(H, func(ci ssa.CallInstruction) bool {
+			return ci.Common().IsInvoke() && namedIs(ci.Common().Value.Type(), pkgProcess, "Service") && errResultIndex2(ci.Common().Signature()) >= 0
+		}) {
+			nprop++
+			errs := map[ssa.Value]bool{}
+			for _, e := range errValuesOfCall(ci) {
+				errs[e] = true
+			}
+			key := Fn(H) + ":" + ci.Common().Method.Name() + ":error-propagated"
+			if len(errs) == 0 {
+				c.R.Fail(rule4, key, c.Pos(ci), "the error of the process service is dropped", "success only below [err == nil]", nil)
+				continue
+			}
+			if x, path := an.Cut(an.CutQuery{From: an.After(ci.(ssa.Instruction)), Target: func(i ssa.Instruction) bool { return isNilReturn(i, H) },
+				AcceptEdge: func(b *ssa.BasicBlock, i int, a *an.Atom) bool { return errNilAtom(a, errs) }}); x != nil {
+				c.R.Fail(rule4, key, c.Pos(x), "the handler can answer success although the process service reported a failure", "success only below [err == nil] of "+ci.Common().Method.Name(), an.PathString(c.Pos, path))
+			} else {
+				c.R.OK(rule4, key, c.Pos(ci), "success is answered only below the nil-error edge of "+ci.Common().Method.Name())
+			}
+		}
+	}
+	c.R.Floor(rule4, "process-service calls in the receiver handlers", nprop, 5)
 	_ = token.ADD
 }
 
@@ -927,6 +955,7 @@ func init() {
 			// the account is stored under a passphrase the unlocker can still present: the configured default is never overwritten
 			c.ImmutableSliceConfig("C12.O4 usable-at-once/config-bytes", pkgProcess, "process service")
 			c.ParticipantsAsSent("C12") // every participant records the participant list the initiator sent
+			c.ParticipantCount("C12")
 		},
 		Explanation: "Claimed clauses only: a generation starts only below [n != 0], [t <= n] and [n/2 < t]; the threshold checked is the one sent in prepare, recorded in the session (never changed) and stored with the account; distributed generation reports success only past error-free, non-empty commit replies, pairwise key equality over all participants and a successful recover+verify of every window of t confirmation signatures against the returned key; every created account is added to the in-memory cache, whose lookups and listing consult the overlay. See DESIGN.md §5 C12.",
 		Trusted:     append([]string{"Shamir/BLS mathematics inside herumi (share consistency, threshold recovery) is not decided"}, commonTrusted...),
